@@ -50,11 +50,23 @@ type c13rrScenario struct {
 	Exits      []int    `json:"exits"`      // agents with exit / domain / forward routes
 	Announcers []int    `json:"announcers"` // agents that announce
 	Announces  int      `json:"announces"`  // announcements per announcer
-	History    []string `json:"history,omitempty"`
+	// QuietAnnounce / QuietUp: an announcement is made / a link comes up only when no frame is in flight (the
+	// re-advertisement interval is long against the time a flood takes), so that announcement rounds do not
+	// overlap; bounds of the joiner family's quick tier
+	QuietAnnounce bool     `json:"quiet_announce,omitempty"`
+	QuietUp       bool     `json:"quiet_up,omitempty"`
+	History       []string `json:"history,omitempty"`
 }
 
 func (sc c13rrScenario) String() string {
-	return fmt.Sprintf("reroute[%s] n=%d edges=%v down=%v(<=%d) up=%v(<=%d) exits=%v announcers=%v x%d", sc.Name, sc.N, sc.Edges, sc.Down, sc.MaxDown, sc.Up, sc.MaxUp, sc.Exits, sc.Announcers, sc.Announces)
+	s := fmt.Sprintf("reroute[%s] n=%d edges=%v down=%v(<=%d) up=%v(<=%d) exits=%v announcers=%v x%d", sc.Name, sc.N, sc.Edges, sc.Down, sc.MaxDown, sc.Up, sc.MaxUp, sc.Exits, sc.Announcers, sc.Announces)
+	if sc.QuietAnnounce {
+		s += " quiet-announce"
+	}
+	if sc.QuietUp {
+		s += " quiet-up"
+	}
+	return s
 }
 
 // c13rrIdent names one stored entry: the tables keep one entry per (key, origin); the agent-presence
@@ -111,10 +123,13 @@ func c13rrApply(nt *nsNet, sc c13rrScenario, ev string) error {
 	return nil
 }
 
-// c13rrBuild builds the scenario's mesh and replays hist. rewritten lists, for the LAST event if it
-// is a delivery, the entries of the receiving agent that existed before with the same next hop and
-// record a path of a different length now (the situation the family exists for; counted, not judged).
-func c13rrBuild(sc c13rrScenario, hist []string) (nt *nsNet, rewritten []string, err error) {
+// c13rrBuild builds the scenario's mesh and replays hist. marks lists, for the LAST event if it
+// is a delivery, what the families exist for (counted, not judged): "rewritten-over-same-next-hop|..." for
+// the entries of the receiving agent that existed before with the same next hop and record a path of a
+// different length now; "multi-presence-adv|..." when the delivered advertisement carries several presence
+// routes of one agent with different metrics (a full-table replay by an agent that holds the origin over
+// several next hops; joiner_test.go).
+func c13rrBuild(sc c13rrScenario, hist []string) (nt *nsNet, marks []string, err error) {
 	isExit := map[int]bool{}
 	for _, e := range sc.Exits {
 		isExit[e] = true
@@ -140,6 +155,10 @@ func c13rrBuild(sc c13rrScenario, hist []string) (nt *nsNet, rewritten []string,
 			p := strings.Split(ev, ":")
 			to, _ = strconv.Atoi(p[2])
 			before = c13rrSnapshot(nt, to)
+			from, _ := strconv.Atoi(p[1])
+			if m := c13jnAdvMark(nt, from, to); m != "" {
+				marks = append(marks, m)
+			}
 		}
 		if err := c13rrApply(nt, sc, ev); err != nil {
 			nt.close()
@@ -148,12 +167,12 @@ func c13rrBuild(sc c13rrScenario, hist []string) (nt *nsNet, rewritten []string,
 		if to >= 0 {
 			for id, now := range c13rrSnapshot(nt, to) {
 				if was, ok := before[id]; ok && was.nextHop == now.nextHop && was.hops != now.hops {
-					rewritten = append(rewritten, fmt.Sprintf("%s|hops=%d->%d", strings.SplitN(id, "|", 2)[0], was.hops, now.hops))
+					marks = append(marks, fmt.Sprintf("rewritten-over-same-next-hop|%s|hops=%d->%d", strings.SplitN(id, "|", 2)[0], was.hops, now.hops))
 				}
 			}
 		}
 	}
-	return nt, rewritten, nil
+	return nt, marks, nil
 }
 
 func c13rrCount(hist []string, sc c13rrScenario) (ann []int, downs, ups int) {
@@ -178,8 +197,9 @@ func c13rrEnabled(nt *nsNet, sc c13rrScenario, hist []string) []string {
 	for _, k := range nt.pending() {
 		evs = append(evs, fmt.Sprintf("d:%d:%d", k[0], k[1]))
 	}
+	quiet := len(evs) == 0
 	for _, i := range sc.Announcers {
-		if ann[i] < sc.Announces {
+		if ann[i] < sc.Announces && (!sc.QuietAnnounce || quiet) {
 			evs = append(evs, fmt.Sprintf("a:%d", i))
 		}
 	}
@@ -190,7 +210,7 @@ func c13rrEnabled(nt *nsNet, sc c13rrScenario, hist []string) []string {
 			}
 		}
 	}
-	if ups < sc.MaxUp {
+	if ups < sc.MaxUp && (!sc.QuietUp || quiet) {
 		for k, e := range sc.Up {
 			if !nt.linked(e[0], e[1]) {
 				evs = append(evs, fmt.Sprintf("c:%d", k))
@@ -203,6 +223,15 @@ func c13rrEnabled(nt *nsNet, sc c13rrScenario, hist []string) []string {
 // c13rrCheck is the base family's clause: every learned route's metric is the hop count of its recorded path.
 func c13rrCheck(r *vmc.Result, sc c13rrScenario, nt *nsNet, hist []string) {
 	rep := func() any { s := sc; s.Family = "reroute"; s.History = append([]string(nil), hist...); return s }
+	c13Prefer(r, nt, sc.String(), hist, rep)
+	late := map[[2]int]bool{} // links that came up during the history
+	for _, ev := range hist {
+		if ev[0] == 'c' {
+			k, _ := strconv.Atoi(ev[2:])
+			late[sc.Up[k]] = true
+			late[[2]int{sc.Up[k][1], sc.Up[k][0]}] = true
+		}
+	}
 	for i := 0; i < nt.n; i++ {
 		for _, rt := range nt.routes(i) {
 			if rt.NextHop == (identity.AgentID{}) || rt.NextHop == nt.ids[i] || rt.Origin == nt.ids[i] {
@@ -211,7 +240,20 @@ func c13rrCheck(r *vmc.Result, sc c13rrScenario, nt *nsNet, hist []string) {
 			hops := len(rt.Path)
 			r.Nontrivial(fmt.Sprintf("%s|hops=%d|m=%d", rt.Kind, hops, rt.Metric))
 			if int(rt.Metric) != hops {
-				r.Violate(fmt.Sprintf("C13/metric-not-hop-count/%s/hops=%d/metric=%d", rt.Kind, hops, rt.Metric),
+				// an entry held over a link that came up during the history was written by the full-table
+				// replay of the agent at the other end (or by what that agent forwarded afterwards): its own
+				// fingerprint (with what the origin advertises: the replay composes one advertisement from several
+				// tables), so that it cannot hide a violation in an entry written hop by hop
+				via := ""
+				if late[[2]int{i, nt.idx(rt.NextHop)}] {
+					via = "/over-late-link/origin-presence-only"
+					for _, e := range sc.Exits {
+						if nt.ids[e] == rt.Origin {
+							via = "/over-late-link/origin-is-exit"
+						}
+					}
+				}
+				r.Violate(fmt.Sprintf("C13/metric-not-hop-count/%s/hops=%d/metric=%d%s", rt.Kind, hops, rt.Metric, via),
 					fmt.Sprintf("%s: after %v agent n%d stores %s route %s from origin %s over next hop %s (sequence %d) with metric %d but its recorded path %s has %d hops", sc, hist, i, rt.Kind, rt.Key, nt.name(rt.Origin), nt.name(rt.NextHop), rt.Seq, rt.Metric, nt.pathStr(rt.Path), hops), rep())
 			}
 		}
@@ -220,15 +262,15 @@ func c13rrCheck(r *vmc.Result, sc c13rrScenario, nt *nsNet, hist []string) {
 
 func c13rrBFS(r *vmc.Result, sc c13rrScenario) vmc.BFSStats {
 	return vmc.BFS(r, func(hist []string) (string, []string) {
-		nt, rewritten, err := c13rrBuild(sc, hist)
+		nt, marks, err := c13rrBuild(sc, hist)
 		if err != nil {
 			r.HarnessError("netsim build failed for %s hist %v: %v", sc, hist, err)
 			return "ERR", nil
 		}
 		defer nt.close()
 		c13rrCheck(r, sc, nt, hist)
-		for _, w := range rewritten {
-			r.Nontrivial("rewritten-over-same-next-hop|" + w)
+		for _, w := range marks {
+			r.Nontrivial(w)
 		}
 		ann, downs, ups := c13rrCount(hist, sc)
 		key := fmt.Sprintf("%v|%d|%d|", ann, downs, ups) + nt.canon()
@@ -277,7 +319,7 @@ func c13rrScenarios(thorough bool) []c13rrScenario {
 }
 
 func c13rrRun(t *testing.T, r *vmc.Result) {
-	for _, sc := range c13rrScenarios(r.Thorough()) {
+	for _, sc := range append(c13rrScenarios(r.Thorough()), c13jnScenarios(r.Thorough())...) {
 		if r.Expired() {
 			break
 		}
